@@ -310,6 +310,10 @@ def fix_nodes(n):
     if n.kind == 'prop':
         name = n.a
         n.kind = 'lit'; n.a = (f'(s {symbol_value(name)})', name); n.pc = 'atom'
+    if n.kind == 'bin' and n.a[1] == '.' and len(n.kids) == 2 and n.kids[1].kind == 'id':
+        # `x . a`: a bare identifier after `.` is a Property (a symbol constant), not an identifier look-up
+        name = n.kids[1].a
+        n.kids[1] = Node('lit', (f'(s {symbol_value(name)})', name))
     kids = list(n.kids)
     if n.kind == 'chain':
         arms, final = n.a
